@@ -385,7 +385,8 @@ def check_points(rec, idnt, kw, log, case, prefix=""):
 
 
 ODD_KINDS = ("E-held-off", "cp-fixed-anywhere", "x-axis-height",
-             "narrow-absolute-range", "baseline-fixed-off")
+             "narrow-absolute-range", "baseline-fixed-off",
+             "cp-fixed-deep-end")
 
 
 def draw_odd_fit(rng):
@@ -418,6 +419,13 @@ def odd_fit(idnt, mk, odd):
     elif kind == "cp-fixed-anywhere":
         p["contact_point"].value = lo - .1 * (hi - lo) \
             + 1.2 * (hi - lo) * odd["u"]
+        p["contact_point"].vary = False
+    elif kind == "cp-fixed-deep-end":
+        # a handful of samples (1..10) left in the indentation part
+        xs = np.sort(x)
+        j = min(xs.size - 1, 1 + int(10 * odd["u"]))
+        p["contact_point"].value = float(xs[j - 1] + (.2 + .6 * odd["v"])
+                                         * (xs[j] - xs[j - 1]))
         p["contact_point"].vary = False
     elif kind == "x-axis-height":
         kw["x_axis"] = "height (measured)"
